@@ -10,15 +10,16 @@ import (
 // C02 - only CRLF.CRLF ends DATA; commands resume exactly after it.
 
 type c02X struct {
-	Want      []byte // reference message
-	Stream    []byte
-	NRcpt     int
-	Markers   []string // expected code class / code per marker, e.g. "250"
-	MarkMail  string   // address of the marker MAIL ("" if none)
-	ReadAll   bool
-	LimitKind int  // 0 none, 1 below, 2 at, 3 above
-	Stall     bool // the client pauses inside the message for longer than ReadTimeout
-	Panic     bool // the backend panics inside Data (at entry, after reading a part, or at the end)
+	Want       []byte // reference message
+	Stream     []byte
+	NRcpt      int
+	Markers    []string // expected code class / code per marker, e.g. "250"
+	MarkMail   string   // address of the marker MAIL ("" if none)
+	ReadAll    bool
+	LimitKind  int  // 0 none, 1 below, 2 at, 3 above
+	Stall      bool // the client pauses inside the message for longer than ReadTimeout
+	Panic      bool // the backend panics inside Data (at entry, after reading a part, or at the end)
+	WriteFault bool // LMTP: a per-recipient status is set before the message is read and the write of its reply fails
 }
 
 var lookAlikes = []string{"\n.\n", "\n.\r\n", "\r\n.\n", "\r.\r", "\r\n.\rX", "\r\n.x\r\n", "\r\n..\r\n", "\n.\r", "\r.\r\n", ".\n"}
@@ -129,6 +130,19 @@ func genC02(t *Tape, tier string) *Scenario {
 		body1.Segs = []int{k, len(stream)}
 		body1.Gaps = []Dur{0, 11 * time.Minute}
 	}
+	if sc.BE.Flavor == beLMTP && len(dp.Statuses) > 0 && dp.Statuses[0].When == 0 && !x.Stall && !x.Panic && len(stream) > 8 && t.Chance(1, 2) {
+		// fault stratum: the backend reports a recipient's status before it has read the
+		// message, the rest of which is still on its way, and the write of that early
+		// reply fails (the client is busy sending): the message text that follows is
+		// still message text
+		x.WriteFault = true
+		cs.SrvFaults.FailWriteAt = 3 + x.NRcpt + 1 + 1
+		k := 1 + t.Intn(len(stream)-1)
+		body1.Segs = []int{k, len(stream)}
+		body1.Gaps = []Dur{0, Dur(1+t.Intn(5)) * time.Millisecond}
+		sc.BE.Conns[0].Data[0].ParkReads = []Dur{2 * time.Millisecond}
+		cs.AwaitTO = 5 * time.Second
+	}
 	steps = append(steps, body1)
 	nm := 1 + t.Intn(4)
 	inTxn := false
@@ -187,8 +201,8 @@ func checkC02(sc *Scenario, h *History) []Violation {
 			return out
 		}
 	}
-	if x.Stall || x.Panic {
-		// After the injected timeout or panic only "never executed as a command" is judged.
+	if x.Stall || x.Panic || x.WriteFault {
+		// After the injected timeout, panic or write failure only "never executed as a command" is judged.
 		return out
 	}
 	replies, _ := parseReplies(ch.Recv)
@@ -287,6 +301,9 @@ func classifyC02(sc *Scenario, h *History, st *Stats) string {
 	if x.Stall {
 		st.Faults["client_stalls_past_read_deadline_inside_message"]++
 	}
+	if x.WriteFault {
+		st.Faults["early_recipient_reply_cannot_be_written"]++
+	}
 	if x.Panic && len(evs) == 1 && evs[0].Panicked {
 		st.Faults["backend_panics_inside_Data"]++
 		if len(evs[0].Read) < len(x.Want) {
@@ -334,7 +351,7 @@ func init() {
 		Real:        []string{"smtp.Server.Serve/handleConn", "smtp.Conn command loop, handleData, handleDataLMTP", "dataReader", "lineLimitReader", "net/textproto", "bufio"},
 		Stub:        []string{"net.Listener (SimListener)", "net.Conn (SimConn)", "Backend/Session/LMTPSession (SimBackend)", "clock (synctest)", "SMTP client (raw driver)"},
 		Assumptions: []string{"acceptance of the message itself is not judged here (C06 does)", "go-smtp built with go1.26.8"},
-		Required:    []string{"bait_command_in_body", "terminator_lookalike_in_body", "message_over_limit_lmtp", "client_stalls_past_read_deadline_inside_message", "marker_shares_segment_with_end_marker", "backend_left_message_unread", "backend_panics_with_message_text_unread"},
+		Required:    []string{"bait_command_in_body", "terminator_lookalike_in_body", "message_over_limit_lmtp", "client_stalls_past_read_deadline_inside_message", "marker_shares_segment_with_end_marker", "backend_left_message_unread", "backend_panics_with_message_text_unread", "early_recipient_reply_cannot_be_written"},
 		QuickRuns:   300000, ThoroughRuns: 6000000,
 	})
 }
